@@ -320,3 +320,22 @@ package table
 //@     assert [C13:footer-names-the-index-block-second] arg1.offset == gLastOff && arg1.length == gLastLen && samebase(arg0, footer[gFooterN:])
 //@   at before call io.Writer.Write#1
 //@     assert [C13:footer-is-written-whole] sameslice(arg0, footer) && len(footer) == footerLen
+
+// C13 / C16: the public lookups hand their arguments on unchanged: whether the filter may be consulted is the caller's
+// decision (a first-key->= lookup must not be filtered: the filter only knows exact keys), a value is asked for
+// exactly when the caller wants one.
+//@ func (*Reader).Find
+//@   props C13 C16
+//@   safety off
+//@   at before call (*Reader).find#1
+//@     assert [C13,C16:filter-used-only-when-the-caller-allows-it] sameslice(arg0, key) && arg1 == filtered && arg2 == ro && !arg3
+//@ func (*Reader).FindKey
+//@   props C13 C16
+//@   safety off
+//@   at before call (*Reader).find#1
+//@     assert [C13,C16:filter-used-only-when-the-caller-allows-it] sameslice(arg0, key) && arg1 == filtered && arg2 == ro && arg3
+//@ func (*Reader).Get
+//@   props C13 C16
+//@   safety off
+//@   at before call (*Reader).find#1
+//@     assert [C13,C16:exact-lookup-goes-through-the-unfiltered-search] sameslice(arg0, key) && !arg1 && arg2 == ro && !arg3
